@@ -61,6 +61,14 @@ reg(
     "DESIGN.md §3 C06",
 )
 
+reg(
+    "C10", "fault_enumeration",
+    "logical step budget (sys.monitoring call counter) per run_to_completion + fault injection at every statement position x error kind with a fault-free twin run compared on unrelated witness flows",
+    "(T) 1.2k (thorough 30k) generated programs (loops/recursion each with a wait, activated flows finishing/failing immediately, mutual activation, hierarchies with loops, conflict losers) x random histories: every run_to_completion must stay below B=400*(elements+flows+10) function entries into statemachine.py/eval.py. (I) for each generated victim flow EVERY statement position after its first wait x 9 error kinds is injected (marker `send AtFault()` in front), driven through RuntimeV2_x.process_events next to a fault-free twin: no exception may escape, a ColangError must reach the error-watch flow, witness flows in their own loops must emit exactly what they emit in the twin for the same and all later events.",
+    "termination is decided on a logical counter, not proven: `exceeds B` stands for `does not terminate`; positions before the victim's first wait are excluded by design (a flow failing while being started fails its starter)",
+    "DESIGN.md §3 C10",
+)
+
 NOT_BUILT_REASON = "check not built yet in this revision (claimed by DESIGN.md; see §5 order of work)"
 
 
